@@ -378,15 +378,16 @@ theorem text_literals_as_modelled :
 The grammar (Go spec "Operators", "Primary expressions"; the shape of `go/parser`'s `parseBinaryExpr` /
 `parseUnaryExpr` / `parsePrimaryExpr`) is given as the big-step relation `Parse` over the printer's token
 stream; it is deterministic (`parse_deterministic`), so "`Parse … e rest`" means: this is what a Go parser
-reads.  The subset: identifiers (`Var`, `nil`, `true`/`false`), integer literals (a negative one is `-`
-applied to a literal), calls, selectors, index expressions, the four unary and twelve binary operators.
-Outside it (not in this theorem): type assertions and composite literals (they need the type grammar), string
-and float literals as operands (their token is opaque here; `escape_go_string_decodes` is about the former). -/
+reads.  The subset: identifiers (`Var`, `nil`, `true`/`false`), integer, float and string literals (a negative
+number is `-` applied to a literal; a literal is one opaque token here — `escape_go_string_decodes` is about the
+inside of a string token), calls, selectors, index expressions, the four unary and twelve binary operators.
+Outside it (not in this theorem): type assertions and composite literals (they need the type grammar). -/
 
 /-- what a parser builds: the tree without the back end's type annotations -/
 inductive PE where
   | ident (x : String)
   | num (s : String)
+  | str (s : String)
   | paren (e : PE)
   | un (op : GUn) (e : PE)
   | bin (op : GBin) (l r : PE)
@@ -427,6 +428,7 @@ inductive Parse : NT → TS → Res → TS → Prop where
   | u_un {s u ts x r} : unOfSym s = some u → Parse .unary ts (.e x) r → Parse .unary (some (.sym s) :: ts) (.e (.un u x)) r
   | u_ident {x ts res r} : Parse (.post (.ident x)) ts res r → Parse .unary (some (.ident x) :: ts) res r
   | u_num {n ts res r} : Parse (.post (.num n)) ts res r → Parse .unary (some (.num n) :: ts) res r
+  | u_str {n ts res r} : Parse (.post (.str n)) ts res r → Parse .unary (some (.str n) :: ts) res r
   | u_paren {s ts x r res r'} : s = "(" → Parse (.bin 1) ts (.e x) (some (.sym ")") :: r) → Parse (.post (.paren x)) r res r' →
       Parse .unary (some (.sym s) :: ts) res r'
   -- PrimaryExpr = Operand { Selector | Index | Arguments }
@@ -461,6 +463,8 @@ def erase : GExpr → PE
   | .var x _ => .ident x
   | .bool b => .ident (if b then "true" else "false")
   | .int text _ => eraseNum text
+  | .float bits _ => eraseNum (goFloatLiteral bits.toNat)
+  | .str v => .str ("\"" ++ escapeGoString v ++ "\"")
   | .call _ f args => .call (erase f) (eraseList args)
   | .un op _ e => .un op (erase e)
   | .bin op _ l r => .bin op (erase l) (erase r)
@@ -470,29 +474,6 @@ def erase : GExpr → PE
 def eraseList : List GExpr → List PE
   | [] => []
   | e :: es => erase e :: eraseList es
-end
-
-def numOK (text : String) : Bool :=
-  match text.toList with
-  | '-' :: rest => !(String.ofList rest).isEmpty
-  | _ => !text.isEmpty
-
-mutual
-/-- the operator subset of this theorem (names and literal texts not empty: `RcDoc::text("")` prints no token) -/
-def inSubset : GExpr → Bool
-  | .nil _ => true
-  | .bool _ => true
-  | .var x _ => !x.isEmpty
-  | .int text _ => numOK text
-  | .call _ f args => inSubset f && inSubsetList args
-  | .un _ _ e => inSubset e
-  | .bin _ _ l r => inSubset l && inSubset r
-  | .field f _ o => !f.isEmpty && inSubset o
-  | .index _ a i => inSubset a && inSubset i
-  | _ => false
-def inSubsetList : List GExpr → Bool
-  | [] => true
-  | e :: es => inSubset e && inSubsetList es
 end
 
 /-! ### token streams of the printer's documents -/
@@ -582,6 +563,44 @@ theorem items_numDoc_neg {text : String} {rest : List Char} (h : text.toList = '
   rw [items_tokD (t := .num (String.ofList rest)) hne]
   rfl
 
+theorem rt_numlit (e : GExpr) (text : String) (hs' : numOK text = true) (hdoc : exprDoc e = numDoc text)
+    (her : erase e = eraseNum text) (hlv : level e = if isNegText text then 6 else 7) : RT e := by
+      cases htl : text.toList with
+      | nil =>
+        have hne : text.isEmpty = false := by simpa [numOK, htl] using hs'
+        refine rt_of_rt1 ?_
+        intro rest res r' h
+        have hi : (exprDoc e).items = [some (.num text)] := by
+          rw [hdoc]; unfold numDoc; rw [htl]; exact items_tokD hne
+        have he : erase e = .num text := by rw [her]; unfold eraseNum; rw [htl]
+        rw [hi]; rw [he] at h; exact .u_num h
+      | cons c cs =>
+        by_cases hc : c = '-'
+        · subst hc
+          have hne : (String.ofList cs).isEmpty = false := by simpa [numOK, htl] using hs'
+          refine rt_of_rt2 (by rw [hlv]; simp [isNegText, htl]) ?_
+          intro rest hr
+          have hi := items_numDoc_neg htl hne
+          have he : erase e = .un .neg (.num (String.ofList cs)) := by
+            simp [her, eraseNum, htl]
+          rw [hdoc, hi, he]
+          exact .u_un (by decide) (.u_num (.p_stop hr))
+        · have hne : text.isEmpty = false := by
+            unfold numOK at hs'; rw [htl] at hs'; split at hs'
+            · rename_i heq; injection heq with h1 _; exact absurd h1 hc
+            · simpa using hs'
+          refine rt_of_rt1 ?_
+          intro rest res r' h
+          have hi : (exprDoc e).items = [some (.num text)] := by
+            rw [hdoc]; unfold numDoc; rw [htl]; split
+            · rename_i heq; injection heq with h1 _; exact absurd h1 hc
+            · exact items_tokD hne
+          have he : erase e = .num text := by
+            rw [her]; unfold eraseNum; rw [htl]; split
+            · rename_i heq; injection heq with h1 _; exact absurd h1 hc
+            · rfl
+          rw [hi]; rw [he] at h; exact .u_num h
+
 mutual
 theorem rt : ∀ e : GExpr, inSubset e = true → exprParenFree e = true → RT e
   | .nil t, _, _ => rt_of_rt1 (by
@@ -600,43 +619,18 @@ theorem rt : ∀ e : GExpr, inSubset e = true → exprParenFree e = true → RT 
       have hx : x.isEmpty = false := by simpa [inSubset] using hs
       rw [show (exprDoc (GExpr.var x t)).items = [some (.ident x)] from by rw [exprDoc]; exact items_tokD hx]
       exact .u_ident h)
-  | .int text t, hs, _ => by
-      have hs' : numOK text = true := by simpa [inSubset] using hs
-      cases htl : text.toList with
-      | nil =>
-        have hne : text.isEmpty = false := by simpa [numOK, htl] using hs'
-        refine rt_of_rt1 ?_
-        intro rest res r' h
-        have hi : (exprDoc (GExpr.int text t)).items = [some (.num text)] := by
-          rw [exprDoc]; unfold numDoc; rw [htl]; exact items_tokD hne
-        have he : erase (GExpr.int text t) = .num text := by rw [erase]; unfold eraseNum; rw [htl]
-        rw [hi]; rw [he] at h; exact .u_num h
-      | cons c cs =>
-        by_cases hc : c = '-'
-        · subst hc
-          have hne : (String.ofList cs).isEmpty = false := by simpa [numOK, htl] using hs'
-          refine rt_of_rt2 (by simp [level, isNegText, htl]) ?_
-          intro rest hr
-          have hi := items_numDoc_neg htl hne
-          have he : erase (GExpr.int text t) = .un .neg (.num (String.ofList cs)) := by
-            simp [erase, eraseNum, htl]
-          rw [exprDoc, hi, he]
-          exact .u_un (by decide) (.u_num (.p_stop hr))
-        · have hne : text.isEmpty = false := by
-            unfold numOK at hs'; rw [htl] at hs'; split at hs'
-            · rename_i heq; injection heq with h1 _; exact absurd h1 hc
-            · simpa using hs'
-          refine rt_of_rt1 ?_
-          intro rest res r' h
-          have hi : (exprDoc (GExpr.int text t)).items = [some (.num text)] := by
-            rw [exprDoc]; unfold numDoc; rw [htl]; split
-            · rename_i heq; injection heq with h1 _; exact absurd h1 hc
-            · exact items_tokD hne
-          have he : erase (GExpr.int text t) = .num text := by
-            rw [erase]; unfold eraseNum; rw [htl]; split
-            · rename_i heq; injection heq with h1 _; exact absurd h1 hc
-            · rfl
-          rw [hi]; rw [he] at h; exact .u_num h
+  | .int text t, hs, _ =>
+      rt_numlit (.int text t) text (by simpa [inSubset] using hs) (by rw [exprDoc]) (by rw [erase]) (by simp only [level])
+  | .float bits t, hs, _ =>
+      rt_numlit (.float bits t) (goFloatLiteral bits.toNat) (by simpa [inSubset] using hs) (by rw [exprDoc]) (by rw [erase])
+        (by simp only [level])
+  | .str v, _, _ => rt_of_rt1 (by
+      intro rest res r' h
+      have hne : ("\"" ++ escapeGoString v ++ "\"").isEmpty = false := by simp [String.isEmpty]
+      rw [show (exprDoc (GExpr.str v)).items = [some (.str ("\"" ++ escapeGoString v ++ "\""))] from by
+        rw [exprDoc]; exact items_tokD hne]
+      rw [erase] at h
+      exact .u_str h)
   | .call t f args, hs, hp => rt_of_rt1 (by
       intro rest res r' h
       simp only [inSubset, Bool.and_eq_true] at hs
@@ -700,7 +694,7 @@ theorem rt : ∀ e : GExpr, inSubset e = true → exprParenFree e = true → RT 
       rw [exprDoc]
       simp only [items_append, List.append_assoc, items_sym_bin, items_sp, List.nil_append]
       simpa using this
-  | .voidv _, hs, _ | .unitv _, hs, _ | .float _ _, hs, _ | .str _, hs, _ | .cast _ _, hs, _ | .slit _ _, hs, _
+  | .voidv _, hs, _ | .unitv _, hs, _ | .cast _ _, hs, _ | .slit _ _, hs, _
   | .alit _ _, hs, _ | .blocke _ _ _, hs, _ => by simp [inSubset] at hs
 theorem rtArgs : ∀ es : List GExpr, inSubsetList es = true → exprsParenFree es = true → ∀ rest : TS,
     Parse .args ((intersperse (sym "," ++ Doc.sp) (exprDocs es)).items ++ some (.sym ")") :: rest) (.es (eraseList es)) rest
@@ -782,6 +776,7 @@ theorem parse_deterministic {nt ts res r} (h : Parse nt ts res r) :
     | u_paren hs' _ _ => subst hs'; rw [unOfSym_lparen] at hu; cases hu
   | u_ident _ ih => intro res' r' h2; cases h2 with | u_ident h' => exact ih h'
   | u_num _ ih => intro res' r' h2; cases h2 with | u_num h' => exact ih h'
+  | u_str _ ih => intro res' r' h2; cases h2 with | u_str h' => exact ih h'
   | u_paren hs _ _ ih1 ih2 =>
     intro res' r' h2
     cases h2 with
